@@ -322,11 +322,68 @@ fn cubic_branch(c0: f64, c1: f64, c2: f64, c3: f64) -> &'static str {
     }
 }
 
+/// The one-real-root branch of `solve_cubic` exists in two versions while
+/// proposed_fixes/C15-cubic-one-root-cancellation.diff is pending: cbrt(r+sq)+cbrt(r-sq) (pinned) and
+/// u - d0/u (repaired; what coq/model/Solvers.v mirrors). They are the same real function; on
+/// binary64 they differ when r-sq cancels. A tolerance comparison uses only inputs on which the two
+/// agree to 1e-11, so that the correspondence holds against either tree.
+fn one_root_versions_agree(c: &[f64; 4]) -> bool {
+    let c3_recip = c[3].recip();
+    const ONETHIRD: f64 = 1. / 3.;
+    let (c0, c1, c2) = (c[0] * c3_recip, c[1] * (ONETHIRD * c3_recip), c[2] * (ONETHIRD * c3_recip));
+    if !(c0.is_finite() && c1.is_finite() && c2.is_finite()) {
+        return true;
+    }
+    let d0 = (-c2).mul_add(c2, c1);
+    let d1 = (-c1).mul_add(c2, c0);
+    let d2 = c2 * c0 - c1 * c1;
+    let d = 4.0 * d0 * d2 - d1 * d1;
+    let de = (-2.0 * c2).mul_add(d0, d1);
+    if !(d < 0.0) {
+        return true;
+    }
+    let sq = (-0.25 * d).sqrt();
+    let r = -0.5 * de;
+    let pinned = (r + sq).cbrt() + (r - sq).cbrt() - c2;
+    let u = (r + sq.copysign(r)).cbrt();
+    let v = if u == 0.0 { 0.0 } else { -d0 / u };
+    let fixed = u + v - c2;
+    close(pinned, fixed, 1e-11)
+}
+
 fn quad_coeffs(q: &QuadBez, p: Point) -> [f64; 4] {
     let d0 = q.p1 - q.p0;
     let d1 = q.p0.to_vec2() + q.p2.to_vec2() - 2.0 * q.p1.to_vec2();
     let d = q.p0 - p;
     [d.dot(d0), 2.0 * d0.hypot2() + d.dot(d1), 3.0 * d1.dot(d0), d1.hypot2()]
+}
+
+/// Does the implementation carry proposed_fixes/C09-nearest-degenerate-quad.diff? Decided on an input
+/// where only that patch makes a difference: a quadratic whose control point is off the midpoint by
+/// 1e-120 (scaled coefficients overflow inside `solve_cubic`, so the pinned code sees NaN roots and
+/// answers with an end point at distance^2 3.25; the repaired code takes the quadratic branch: 0.01).
+/// The correspondence then runs against the repaired model (operation numbers + 20).
+fn repaired() -> bool {
+    let q = QuadBez::new((4.0, 3.0), (1e-120, -1e-120), (-4.0, -3.0));
+    std::panic::catch_unwind(|| q.nearest(Point::new(2.5, 2.0), 1e-6).distance_sq < 1.0).unwrap_or(false)
+}
+
+/// the Newton polish of the repaired code (same operations)
+fn polish(c: &[f64; 4], t: f64) -> f64 {
+    let poly = |t: f64| c[0] + t * (c[1] + t * (c[2] + t * c[3]));
+    let mut t = t;
+    let mut g = poly(t);
+    for _ in 0..4 {
+        let dg = c[1] + t * (2.0 * c[2] + t * (3.0 * c[3]));
+        let t_new = t - g / dg;
+        let g_new = poly(t_new);
+        if !(g_new.abs() < g.abs()) {
+            break;
+        }
+        t = t_new;
+        g = g_new;
+    }
+    t
 }
 
 struct QInfo {
@@ -335,10 +392,17 @@ struct QInfo {
     tag: String,
 }
 
-fn quad_info(q: &QuadBez, p: Point, n: &Nearest) -> QInfo {
+fn quad_info(q: &QuadBez, p: Point, n: &Nearest, rep: bool) -> QInfo {
     let c = quad_coeffs(q, p);
-    let branch = cubic_branch(c[0], c[1], c[2], c[3]);
-    let roots = solve_cubic(c[0], c[1], c[2], c[3]);
+    let mut branch = cubic_branch(c[0], c[1], c[2], c[3]);
+    let mut roots: Vec<f64> = solve_cubic(c[0], c[1], c[2], c[3]).to_vec();
+    if rep {
+        if c[3] <= f64::EPSILON * f64::EPSILON * (q.p1 - q.p0).hypot2() {
+            branch = "repaired:quadratic";
+            roots = kurbo::common::solve_quadratic(c[0], c[1], c[2]).to_vec();
+        }
+        roots = roots.iter().map(|t| polish(&c, *t)).collect();
+    }
     let inr = roots.iter().filter(|t| (0.0..=1.0).contains(*t)).count();
     let need_ends = roots.is_empty() || inr < roots.len();
     let win = if need_ends && (n.t == 0.0 || n.t == 1.0) && !roots.iter().any(|t| *t == n.t) { "end" } else { "root" };
@@ -383,7 +447,18 @@ fn c_of(a: &[f64]) -> CubicBez {
 // ------------------------------------------------------------------ correspondence
 
 fn corr(r: &mut Rng, thorough: bool, o: &mut Out) {
+    // a panic inside the implementation (e.g. `unwrap` of an empty best-so-far) must not take the run
+    // down: the laws, each under catch_unwind, then report it with the failing input
+    if std::panic::catch_unwind(std::panic::AssertUnwindSafe(|| corr_inner(r, thorough, o))).is_err() {
+        o.notes.push("the implementation panicked while the correspondence cases were generated; the cases written before the panic are kept".into());
+    }
+}
+
+fn corr_inner(r: &mut Rng, thorough: bool, o: &mut Out) {
     let n = if thorough { 8000 } else { 600 };
+    let rep = repaired();
+    let v: i64 = if rep { 20 } else { 0 };
+    o.notes.push(format!("implementation variant detected: {}", if rep { "repaired (proposed_fixes/C09-nearest-degenerate-quad.diff); correspondence against quad_nearest_repaired" } else { "pinned; correspondence against quad_nearest" }));
     // ---- lines: exact
     for _ in 0..n {
         let (l, kind) = gen_line9(r);
@@ -407,13 +482,13 @@ fn corr(r: &mut Rng, thorough: bool, o: &mut Out) {
         let (q, kind) = gen_quad9(r);
         let (p, _) = gen_query(r, &PathSeg::Quad(q));
         let res = q.nearest(p, 1e-6);
-        let info = quad_info(&q, p, &res);
+        let info = quad_info(&q, p, &res, rep);
         let args = vec![q.p0.x, q.p0.y, q.p1.x, q.p1.y, q.p2.x, q.p2.y, p.x, p.y];
         if info.libm_free {
-            o.case(4, "quad:exact-paths", args, vec![res.t, res.distance_sq], true, &format!("{}/{}", kind, info.tag));
-        } else if info.branch != "d-nan" && stable(&args, 0, 8, &|a| q_of(a).nearest(Point::new(a[6], a[7]), 1e-6)) {
-            o.case(2, "quad:t", args.clone(), vec![res.t], true, &info.tag);
-            o.case(3, "quad:distance_sq", args, vec![res.distance_sq], true, &info.tag);
+            o.case(4 + v, "quad:exact-paths", args, vec![res.t, res.distance_sq], true, &format!("{}/{}", kind, info.tag));
+        } else if !degree_degenerate(&q) && one_root_versions_agree(&quad_coeffs(&q, p)) && stable(&args, 0, 8, &|a| q_of(a).nearest(Point::new(a[6], a[7]), 1e-6)) {
+            o.case(2 + v, "quad:t", args.clone(), vec![res.t], true, &info.tag);
+            o.case(3 + v, "quad:distance_sq", args, vec![res.distance_sq], true, &info.tag);
         } else {
             skipped_q += 1;
         }
@@ -432,7 +507,7 @@ fn corr(r: &mut Rng, thorough: bool, o: &mut Out) {
             continue;
         }
         let res = c.nearest(p, acc);
-        let all_free = pieces.iter().all(|(_, _, q)| quad_info(q, p, &q.nearest(p, acc)).libm_free);
+        let all_free = pieces.iter().all(|(_, _, q)| quad_info(q, p, &q.nearest(p, acc), rep).libm_free);
         let base = vec![c.p0.x, c.p0.y, c.p1.x, c.p1.y, c.p2.x, c.p2.y, c.p3.x, c.p3.y];
         let with = |e: &[f64]| -> Vec<f64> { base.iter().cloned().chain(e.iter().cloned()).collect() };
         let generic = matches!(kind, "generic" | "loop" | "closed" | "p1=p0" | "p2=p3" | "collinear-generic");
@@ -441,17 +516,18 @@ fn corr(r: &mut Rng, thorough: bool, o: &mut Out) {
             o.case(8, "cubic:count", with(&[acc]), vec![np as f64], np > 1, &format!("n={}", np.min(9)));
         }
         if all_free {
-            o.case(7, "cubic:exact-paths", with(&[p.x, p.y, np as f64]), vec![res.t, res.distance_sq], true, &format!("{}/n={}", kind, np.min(9)));
-        } else if stable(&with(&[p.x, p.y, acc]), 0, 10, &|a| c_of(a).nearest(Point::new(a[8], a[9]), a[10]))
+            o.case(7 + v, "cubic:exact-paths", with(&[p.x, p.y, np as f64]), vec![res.t, res.distance_sq], true, &format!("{}/n={}", kind, np.min(9)));
+        } else if !pieces.iter().any(|(_, _, q)| degree_degenerate(q) || !one_root_versions_agree(&quad_coeffs(q, p)))
+            && stable(&with(&[p.x, p.y, acc]), 0, 10, &|a| c_of(a).nearest(Point::new(a[8], a[9]), a[10]))
             && c_of(&with(&[p.x, p.y, acc])).to_quads(acc * (1.0 + 1e-9)).count() == np
             && c.to_quads(acc * (1.0 - 1e-9)).count() == np
         {
             if generic {
-                o.case(5, "cubic:t", with(&[p.x, p.y, acc]), vec![res.t], true, &format!("{}/n={}", kind, np.min(9)));
-                o.case(6, "cubic:distance_sq", with(&[p.x, p.y, acc]), vec![res.distance_sq], true, &format!("{}/n={}", kind, np.min(9)));
+                o.case(5 + v, "cubic:t", with(&[p.x, p.y, acc]), vec![res.t], true, &format!("{}/n={}", kind, np.min(9)));
+                o.case(6 + v, "cubic:distance_sq", with(&[p.x, p.y, acc]), vec![res.distance_sq], true, &format!("{}/n={}", kind, np.min(9)));
             } else {
-                o.case(11, "cubic-n:t", with(&[p.x, p.y, np as f64]), vec![res.t], true, &format!("{}/n={}", kind, np.min(9)));
-                o.case(12, "cubic-n:distance_sq", with(&[p.x, p.y, np as f64]), vec![res.distance_sq], true, &format!("{}/n={}", kind, np.min(9)));
+                o.case(11 + v, "cubic-n:t", with(&[p.x, p.y, np as f64]), vec![res.t], true, &format!("{}/n={}", kind, np.min(9)));
+                o.case(12 + v, "cubic-n:distance_sq", with(&[p.x, p.y, np as f64]), vec![res.distance_sq], true, &format!("{}/n={}", kind, np.min(9)));
             }
         } else {
             skipped_c += 1;
@@ -477,12 +553,17 @@ fn corr(r: &mut Rng, thorough: bool, o: &mut Out) {
         let k = args.len();
         args.extend_from_slice(&[p.x, p.y, acc]);
         let res = s.nearest(p, acc);
-        if stable(&args, 1, k + 2, &|a| {
+        let agree = match s {
+            PathSeg::Line(_) => true,
+            PathSeg::Quad(q) => one_root_versions_agree(&quad_coeffs(&q, p)),
+            PathSeg::Cubic(c) => c.to_quads(acc).all(|(_, _, q)| !degree_degenerate(&q) && one_root_versions_agree(&quad_coeffs(&q, p))),
+        };
+        if agree && stable(&args, 1, k + 2, &|a| {
             let (s, rest) = dec_seg(a);
             s.nearest(Point::new(rest[0], rest[1]), rest[2])
         }) {
-            o.case(9, "pathseg:t", args.clone(), vec![res.t], true, kind);
-            o.case(10, "pathseg:distance_sq", args, vec![res.distance_sq], true, kind);
+            o.case(9 + v, "pathseg:t", args.clone(), vec![res.t], true, kind);
+            o.case(10 + v, "pathseg:distance_sq", args, vec![res.distance_sq], true, kind);
         }
     }
 }
@@ -578,30 +659,21 @@ fn degree_degenerate(q: &QuadBez) -> bool {
     d1.hypot2() <= 1e-12 * d0.hypot2()
 }
 
-/// nearest on a quadratic without the cubic solver: end points plus the roots of
-/// g(t) = c0 + c1 t + c2 t^2 + c3 t^3 bracketed on a 64-cell grid and bisected
-fn robust_quad_nearest(q: &QuadBez, p: Point) -> Nearest {
-    let c = quad_coeffs(q, p);
+/// the roots of g(t) = c0 + c1 t + c2 t^2 + c3 t^3 in [0,1] that a 64-cell grid brackets, bisected
+fn bracket_roots(c: &[f64; 4]) -> Vec<f64> {
     let g = |t: f64| c[0] + t * (c[1] + t * (c[2] + t * c[3]));
-    let mut best = Nearest { t: 0.0, distance_sq: (q.p0 - p).hypot2() };
-    let mut consider = |t: f64| {
-        let d = (q.eval(t) - p).hypot2();
-        if d < best.distance_sq {
-            best = Nearest { t, distance_sq: d };
-        }
-    };
-    consider(1.0);
+    let mut out = Vec::new();
     const M: usize = 64;
     for i in 0..M {
         let (mut a, mut b) = (i as f64 / M as f64, (i + 1) as f64 / M as f64);
         let (ga, gb) = (g(a), g(b));
         if ga == 0.0 {
-            consider(a);
+            out.push(a);
         }
-        if gb == 0.0 {
-            consider(b);
+        if gb == 0.0 && i + 1 == M {
+            out.push(b);
         }
-        if (ga < 0.0) != (gb < 0.0) {
+        if ga != 0.0 && gb != 0.0 && (ga < 0.0) != (gb < 0.0) {
             for _ in 0..80 {
                 let m = 0.5 * (a + b);
                 if (g(m) < 0.0) == (ga < 0.0) {
@@ -610,19 +682,146 @@ fn robust_quad_nearest(q: &QuadBez, p: Point) -> Nearest {
                     b = m;
                 }
             }
-            consider(0.5 * (a + b));
+            out.push(0.5 * (a + b));
         }
+    }
+    out
+}
+
+/// nearest on a quadratic without the cubic solver: end points plus the bracketed roots of g
+fn robust_quad_nearest(q: &QuadBez, p: Point) -> Nearest {
+    let mut best = Nearest { t: 0.0, distance_sq: (q.p0 - p).hypot2() };
+    let mut consider = |t: f64| {
+        let d = (q.eval(t) - p).hypot2();
+        if d < best.distance_sq {
+            best = Nearest { t, distance_sq: d };
+        }
+    };
+    consider(1.0);
+    for t in bracket_roots(&quad_coeffs(q, p)) {
+        consider(t);
     }
     best
 }
 
-/// `CubicBez::nearest` with the degree-degenerate pieces answered by `robust_quad_nearest`
-fn cubic_nearest_robust_on_degenerate(c: &CubicBez, p: Point, acc: f64) -> (Nearest, usize) {
+/// Reference transcription of common.rs::solve_quadratic / solve_cubic (same operations, same order).
+/// `fixed_one_root`: the one-real-root branch as repaired by proposed_fixes/C15-cubic-one-root-cancellation.diff.
+fn ref_solve_quadratic(c0: f64, c1: f64, c2: f64) -> Vec<f64> {
+    let sc0 = c0 * c2.recip();
+    let sc1 = c1 * c2.recip();
+    if !sc0.is_finite() || !sc1.is_finite() {
+        let root = -c0 / c1;
+        return if root.is_finite() {
+            vec![root]
+        } else if c0 == 0.0 && c1 == 0.0 {
+            vec![0.0]
+        } else {
+            vec![]
+        };
+    }
+    let arg = sc1 * sc1 - 4. * sc0;
+    let root1 = if !arg.is_finite() {
+        -sc1
+    } else {
+        if arg < 0.0 {
+            return vec![];
+        } else if arg == 0.0 {
+            return vec![-0.5 * sc1];
+        }
+        -0.5 * (sc1 + arg.sqrt().copysign(sc1))
+    };
+    let root2 = sc0 / root1;
+    if root2.is_finite() {
+        if root2 > root1 {
+            vec![root1, root2]
+        } else {
+            vec![root2, root1]
+        }
+    } else {
+        vec![root1]
+    }
+}
+
+fn ref_solve_cubic(c0: f64, c1: f64, c2: f64, c3: f64, fixed_one_root: bool) -> Vec<f64> {
+    let c3_recip = c3.recip();
+    const ONETHIRD: f64 = 1. / 3.;
+    let scaled_c2 = c2 * (ONETHIRD * c3_recip);
+    let scaled_c1 = c1 * (ONETHIRD * c3_recip);
+    let scaled_c0 = c0 * c3_recip;
+    if !(scaled_c0.is_finite() && scaled_c1.is_finite() && scaled_c2.is_finite()) {
+        return ref_solve_quadratic(c0, c1, c2);
+    }
+    let (c0, c1, c2) = (scaled_c0, scaled_c1, scaled_c2);
+    let d0 = (-c2).mul_add(c2, c1);
+    let d1 = (-c1).mul_add(c2, c0);
+    let d2 = c2 * c0 - c1 * c1;
+    let d = 4.0 * d0 * d2 - d1 * d1;
+    let de = (-2.0 * c2).mul_add(d0, d1);
+    if d < 0.0 {
+        let sq = (-0.25 * d).sqrt();
+        let r = -0.5 * de;
+        let t1 = if fixed_one_root {
+            let u = (r + sq.copysign(r)).cbrt();
+            let v = if u == 0.0 { 0.0 } else { -d0 / u };
+            u + v
+        } else {
+            (r + sq).cbrt() + (r - sq).cbrt()
+        };
+        vec![t1 - c2]
+    } else if d == 0.0 {
+        let t1 = (-d0).sqrt().copysign(de);
+        vec![t1 - c2, -2.0 * t1 - c2]
+    } else {
+        let th = d.sqrt().atan2(-de) * ONETHIRD;
+        let (th_sin, th_cos) = th.sin_cos();
+        let r0 = th_cos;
+        let ss3 = th_sin * 3.0f64.sqrt();
+        let r1 = 0.5 * (-th_cos + ss3);
+        let r2 = 0.5 * (-th_cos - ss3);
+        let t = 2.0 * (-d0).sqrt();
+        vec![t.mul_add(r0, -c2), t.mul_add(r1, -c2), t.mul_add(r2, -c2)]
+    }
+}
+
+fn same_bits(a: &[f64], b: &[f64]) -> bool {
+    a.len() == b.len() && a.iter().zip(b).all(|(x, y)| x.to_bits() == y.to_bits() || (x.is_nan() && y.is_nan()))
+}
+
+/// the implementation's `solve_cubic` answers these coefficients bit for bit like the reference
+/// algorithm (pinned, or with the C15 one-root repair): wrong roots are then a numerical defect of
+/// that algorithm, not a change of the code
+fn solver_is_reference(c: &[f64; 4]) -> bool {
+    let got = solve_cubic(c[0], c[1], c[2], c[3]).to_vec();
+    same_bits(&got, &ref_solve_cubic(c[0], c[1], c[2], c[3], false)) || same_bits(&got, &ref_solve_cubic(c[0], c[1], c[2], c[3], true))
+}
+
+/// `solve_cubic`, called on the coefficients of the critical-point cubic of (q, p) as the harness
+/// computes them (the same expressions as quadbez.rs), returns demonstrably wrong roots: it loses a
+/// critical point (some bracketed root of g in [0,1] has no returned root within 1e-10), or it
+/// returns a value in [0,1] that is not a root (residual above 1e-9 times the coefficient sum; such
+/// a value makes `nearest` skip the end points) - while computing exactly what the reference
+/// algorithm computes (`solver_is_reference`), so that a changed solver is never excused
+fn solver_lost_root(q: &QuadBez, p: Point) -> bool {
+    let c = quad_coeffs(q, p);
+    let g = |t: f64| c[0] + t * (c[1] + t * (c[2] + t * c[3]));
+    let roots = solve_cubic(c[0], c[1], c[2], c[3]);
+    let size = c[0].abs() + c[1].abs() + c[2].abs() + c[3].abs();
+    solver_is_reference(&c)
+        && (bracket_roots(&c).iter().any(|t| !roots.iter().any(|r| (r - t).abs() <= 1e-10))
+            || roots.iter().any(|r| (0.0..=1.0).contains(r) && g(*r).abs() > 1e-9 * size))
+}
+
+/// `CubicBez::nearest` with the pieces on which `solve_cubic` loses a root answered by
+/// `robust_quad_nearest`; returns also (pieces swapped, degree-degenerate pieces among them)
+fn cubic_nearest_solver_swapped(c: &CubicBez, p: Point, acc: f64) -> (Nearest, usize, usize) {
     let mut best: Option<Nearest> = None;
-    let mut ndeg = 0;
+    let (mut nswap, mut ndeg) = (0, 0);
     for (t0, t1, q) in c.to_quads(acc) {
-        let n = if degree_degenerate(&q) {
-            ndeg += 1;
+        let n = if solver_lost_root(&q, p) {
+            nswap += 1;
+            if degree_degenerate(&q) {
+                ndeg += 1;
+            }
             robust_quad_nearest(&q, p)
         } else {
             q.nearest(p, acc)
@@ -631,7 +830,7 @@ fn cubic_nearest_robust_on_degenerate(c: &CubicBez, p: Point, acc: f64) -> (Near
             best = Some(Nearest { t: t0 + n.t * (t1 - t0), distance_sq: n.distance_sq });
         }
     }
-    (best.unwrap(), ndeg)
+    (best.unwrap(), nswap, ndeg)
 }
 
 /// None when (t, distance_sq) meets the property for the segment; otherwise what is wrong
@@ -655,7 +854,16 @@ fn judge(s: &PathSeg, p: Point, acc: f64, n: &Nearest) -> Option<(&'static str, 
     None
 }
 
+/// known classes (both rooted in common.rs::solve_cubic, finding C15-cubic-tiny-leading and the
+/// cancellation in its one-real-root branch): a violation is put in one of them only if the root
+/// cause is demonstrated on the failing input itself: `solve_cubic` loses an in-range root on some
+/// quadratic (piece), and the violation disappears when exactly those pieces are answered without it
 const KNOWN_CLASS: &str = "nearest:cubic-solver-tiny-leading-coefficient";
+const KNOWN_CLASS2: &str = "nearest:cubic-solver-cancellation";
+/// the driver keeps the first 200 violations of a run: violations of the known class beyond the
+/// first few per run are only counted (reported in the notes), so that they cannot crowd out others
+static KNOWN_HITS: std::sync::atomic::AtomicU64 = std::sync::atomic::AtomicU64::new(0);
+const KNOWN_REPORTED: u64 = 8;
 
 /// args: enc_seg ++ [px, py, accuracy]
 fn law_nearest(a: &[f64]) -> Option<(String, String)> {
@@ -672,17 +880,31 @@ fn law_nearest(a: &[f64]) -> Option<(String, String)> {
         return fail(&format!("nearest:pathseg-dispatch:{}", k), format!("PathSeg::nearest = {:?}, {}::nearest = {:?} for {:?} p={:?}", nd, k, n, s, p));
     }
     let (what, desc) = judge(&s, p, acc, &n)?;
-    // root cause: does the violation go away when the degree-degenerate quadratics (leading
-    // coefficients of the critical-point cubic of rounding size) are answered without solve_cubic?
-    let known = match s {
-        PathSeg::Line(_) => false,
-        PathSeg::Quad(q) => degree_degenerate(&q) && judge(&s, p, acc, &robust_quad_nearest(&q, p)).is_none(),
+    let known: Option<&str> = match s {
+        PathSeg::Line(_) => None,
+        PathSeg::Quad(q) => {
+            if solver_lost_root(&q, p) && judge(&s, p, acc, &robust_quad_nearest(&q, p)).is_none() {
+                Some(if degree_degenerate(&q) { KNOWN_CLASS } else { KNOWN_CLASS2 })
+            } else {
+                None
+            }
+        }
         PathSeg::Cubic(c) => {
-            let (r, ndeg) = cubic_nearest_robust_on_degenerate(&c, p, acc);
-            ndeg > 0 && judge(&s, p, acc, &r).is_none()
+            let (r, nswap, ndeg) = cubic_nearest_solver_swapped(&c, p, acc);
+            if nswap > 0 && judge(&s, p, acc, &r).is_none() {
+                Some(if ndeg > 0 { KNOWN_CLASS } else { KNOWN_CLASS2 })
+            } else {
+                None
+            }
         }
     };
-    let class = if known { format!("{}:{}:{}", KNOWN_CLASS, k, what) } else { format!("nearest:{}:{}", k, what) };
+    if known.is_some() && KNOWN_HITS.fetch_add(1, std::sync::atomic::Ordering::Relaxed) >= KNOWN_REPORTED {
+        return None;
+    }
+    let class = match known {
+        Some(kc) => format!("{}:{}:{}", kc, k, what),
+        None => format!("nearest:{}:{}", k, what),
+    };
     fail(&class, format!("{:?} p={:?}: {}", s, p, desc))
 }
 
@@ -742,6 +964,20 @@ fn laws() -> Vec<Law> {
 // ------------------------------------------------------------------ extra: known-finding replay, sweep
 
 fn extra(r: &mut Rng, thorough: bool, o: &mut Out) {
+    if std::panic::catch_unwind(std::panic::AssertUnwindSafe(|| extra_inner(r, thorough, o))).is_err() {
+        o.notes.push("the implementation panicked during the known-finding replays / sweep".into());
+    }
+}
+
+fn extra_inner(r: &mut Rng, thorough: bool, o: &mut Out) {
+    o.notes.push(format!(
+        "law evaluations failing in the known classes {} / {} (root cause confirmed per input: solve_cubic loses an in-range root on some quadratic piece and the violation disappears when those pieces are answered without it): {}; only the first {} are listed as violations",
+        KNOWN_CLASS,
+        KNOWN_CLASS2,
+        KNOWN_HITS.load(std::sync::atomic::Ordering::Relaxed),
+        KNOWN_REPORTED
+    ));
+    KNOWN_HITS.store(0, std::sync::atomic::Ordering::Relaxed);
     // witness of the known finding (a straight cubic with its controls at the thirds)
     let w = [
         3.0,
@@ -761,6 +997,29 @@ fn extra(r: &mut Rng, thorough: bool, o: &mut Out) {
     let still = matches!(&res, Some((c, _)) if c.starts_with(KNOWN_CLASS));
     o.known(
         "C09-straight-cubic",
+        still,
+        match res {
+            Some((c, d)) => format!("{}: {}", c, d),
+            None => "the witness now satisfies the property".into(),
+        },
+    );
+    // witness of the second known finding: an ordinary quadratic, query point on the curve
+    let w2 = [
+        2.0,
+        -2.0672327765396563,
+        -3.0443827332356888,
+        -2.5606037626474643,
+        -5.18400814395859,
+        -3.2085062974090617,
+        -7.450598118519838,
+        -2.927561661075864,
+        -6.447235809314052,
+        1e-9,
+    ];
+    let res = law_nearest(&w2);
+    let still = matches!(&res, Some((c, _)) if c.starts_with(KNOWN_CLASS2));
+    o.known(
+        "C09-solver-cancellation",
         still,
         match res {
             Some((c, d)) => format!("{}: {}", c, d),
